@@ -163,3 +163,25 @@ def closure_with(facts, parent_npath, pred):
     from analysis.facts import norm
     out = [c for c in facts.bodies if c.kind == "Closure" and c.npath.startswith(parent_npath + "::{closure#") and pred(c)]
     return out[0] if len(out) == 1 else None
+
+
+def owners(facts, fn, allowed):
+    """The functions of `allowed` through which `fn` is entered, or None when `fn` can also be entered from outside
+    `allowed` (then it is an entry point of its own and must be judged under its own name)."""
+    if fn in allowed:
+        return {fn}
+    if uncovered_roots(facts, fn, allowed):
+        return None
+    cm = callers_map(facts)
+    own, seen, work = set(), set(), [fn]
+    while work:
+        x = work.pop()
+        if x in seen:
+            continue
+        seen.add(x)
+        for c in cm.get(x, set()) - {x}:
+            if c in allowed:
+                own.add(c)
+            else:
+                work.append(c)
+    return own
